@@ -127,7 +127,9 @@ def judge (j : Json) : Except String Verdict := do
     | some (some p) => p
     | _ => 1000 + n
   -- ===== the property, directly on the log =====
-  let mut d : Direct := {}
+  let mut d : Direct := {}      -- progress
+  let mut dB : Direct := {}     -- blocks hold
+  let mut dE : Direct := {}     -- exactly once
   let fail (d : Direct) (sig why : String) : Direct := if d.ok then { ok := false, sig := sig, why := why } else d
   if status == "blocked" then
     d := fail d "C08:progress:blocked" s!"registrations did not complete: {note}"
@@ -140,15 +142,15 @@ def judge (j : Json) : Except String Verdict := do
     match e[0]! with
     | 0 =>
       if syncing > 0 then
-        d := fail d "C08:blocks-hold:block-during-sync" s!"block {e[2]!} acquired at seq {e[1]!} while a SyncFn was running"
+        dB := fail dB "C08:blocks-hold:block-during-sync" s!"block {e[2]!} acquired at seq {e[1]!} while a SyncFn was running"
       readers := readers + 1
       if e[2]! + 1 > nBlocks then nBlocks := e[2]! + 1
     | 3 => readers := readers - 1
     | 4 =>
       if readers > 0 then
-        d := fail d "C08:blocks-hold:sync-during-block" s!"SyncFn #{e[2]!} entered at seq {e[1]!} while {readers} sync block(s) were held"
+        dB := fail dB "C08:blocks-hold:sync-during-block" s!"SyncFn #{e[2]!} entered at seq {e[1]!} while {readers} sync block(s) were held"
       if syncing > 0 then
-        d := fail d "C08:blocks-hold:two-syncs" s!"SyncFn #{e[2]!} entered at seq {e[1]!} while another SyncFn was running"
+        dB := fail dB "C08:blocks-hold:two-syncs" s!"SyncFn #{e[2]!} entered at seq {e[1]!} while another SyncFn was running"
       syncing := syncing + 1
     | 6 => syncing := syncing - 1
     | 1 => if e[3]! + 1 > nC then nC := e[3]! + 1
@@ -170,7 +172,8 @@ def judge (j : Json) : Except String Verdict := do
   -- exactly once, per plugin, against the final store
   let sstore := sorted store
   let mut cover : List String := ["trace", s!"kind:{kind}", s!"procs:{procs}", s!"order:{order}", s!"P:{P}",
-    s!"G:{getNatD inp "G"}"]
+    s!"G:{getNatD inp "G"}", s!"contend:{getNatD inp "contend"}",
+    (if getNatD inp "synclag_us" > 0 then "synclag:yes" else "synclag:no")]
   let mut raced := 0
   for pl in plugs do
     if pl.syncs.size == 0 then
@@ -178,7 +181,7 @@ def judge (j : Json) : Except String Verdict := do
         d := fail d "C08:progress:never-synchronised" s!"plugin {pl.p} was never synchronised (Start error: {pl.err})"
       cover := "reg:none" :: cover
     else if pl.syncs.size > 1 then
-      d := fail d "C08:exactly-once:two-snapshots" s!"plugin {pl.p} was synchronised {pl.syncs.size} times"
+      dE := fail dE "C08:exactly-once:two-snapshots" s!"plugin {pl.p} was synchronised {pl.syncs.size} times"
     else
       let sy := pl.syncs[0]!
       if !pl.started then
@@ -193,20 +196,20 @@ def judge (j : Json) : Except String Verdict := do
           let inSnap := sy.ids.contains c
           let inGot := pl.got.contains c
           if n == 0 then
-            d := fail d "C08:exactly-once:neither" s!"plugin {pl.p} never learnt of container {c}: not in its snapshot (SyncFn #{sy.n}) and no creation request"
+            dE := fail dE "C08:exactly-once:neither" s!"plugin {pl.p} never learnt of container {c}: not in its snapshot (SyncFn #{sy.n}) and no creation request"
           else if n == 1000000 then
-            d := fail d "C08:exactly-once:unknown-container" s!"plugin {pl.p} was told of container {c} which is not in the runtime's store"
+            dE := fail dE "C08:exactly-once:unknown-container" s!"plugin {pl.p} was told of container {c} which is not in the runtime's store"
           else if inSnap && inGot then
-            d := fail d "C08:exactly-once:both" s!"plugin {pl.p} learnt of container {c} twice: in its snapshot (SyncFn #{sy.n}) and by a creation request"
+            dE := fail dE "C08:exactly-once:both" s!"plugin {pl.p} learnt of container {c} twice: in its snapshot (SyncFn #{sy.n}) and by a creation request"
           else
-            d := fail d "C08:exactly-once:duplicate" s!"plugin {pl.p} learnt of container {c} {n} times"
+            dE := fail dE "C08:exactly-once:duplicate" s!"plugin {pl.p} learnt of container {c} {n} times"
         -- activated while a block was held?
         let r := retAt[sy.n]?.getD 0
         for c in pl.got do
           if c < blockOfC.size then
             let b := blockOfC[c]!
             if blockAt[b]?.getD 0 < r then
-              d := fail d "C08:blocks-hold:activated-during-block" s!"plugin {pl.p} received the creation of container {c} although its block {b} was acquired before the plugin's synchronisation returned"
+              dB := fail dB "C08:blocks-hold:activated-during-block" s!"plugin {pl.p} received the creation of container {c} although its block {b} was acquired before the plugin's synchronisation returned"
         -- did the registration land in the middle of the creation stream?
         if pre < sy.ids.size && sy.ids.size < store.size then
           raced := raced + 1
@@ -264,8 +267,14 @@ def judge (j : Json) : Except String Verdict := do
         if ((snaps[sy.n]?).getD #[]) != sy.ids then
           agreeWhy := s!"plugin {pl.p} received a snapshot different from the one SyncFn #{sy.n} handed to the callback"
   let agree := agreeWhy == ""
-  let why := if !d.ok then d.why else agreeWhy
-  pure { agree := agree, spec := d.ok, why := why, sig := d.sig, cover := cover,
+  if !dE.ok then cover := "viol:exactly-once" :: cover
+  if !dB.ok then cover := "viol:blocks-hold" :: cover
+  if !d.ok then cover := "viol:progress" :: cover
+  let first := if !dE.ok then dE else if !dB.ok then dB else d
+  let others := (if !dE.ok && !dB.ok then s!" [also: {dB.why}]" else "") ++
+    (if (!dE.ok || !dB.ok) && !d.ok then s!" [also: {d.why}]" else "")
+  let why := if !first.ok then first.why ++ others else agreeWhy
+  pure { agree := agree, spec := first.ok, why := why, sig := first.sig, cover := cover,
          nontrivial := raced > 0 || kind == "hold", excluded := false,
          model := Json.mkObj [("events", ev.size), ("raced", raced), ("accepted", rej.isNone)] }
 
